@@ -587,6 +587,8 @@ def check_normalisers(ctx):
             ctx.holds(rule, fi, '%s%s as the %s normaliser (%s): %s' % (fi.qual, opts, role, ', '.join(sorted(attrs)),
                       'callable | int | Field | expression | else ValueError' if role == 'count' else 'callable | Field -> truth expression -> compiled | expression -> compiled | else ValueError'),
                       'every accepted kind is normalised as declared', fi.node.lineno, clause='g')
+        elif not (kinds - {'reject'}):
+            ctx.undecided(rule, fi, '%s%s as the %s normaliser' % (fi.qual, opts, role), 'none of the kinds of raw value is handled in a form the rule reads (the work is delegated)', fi.node.lineno, clause='g')
         else:
             ctx.violation(rule, fi, '%s%s as the %s normaliser: kinds handled %s' % (fi.qual, opts, role, sorted(kinds)),
                           'expected %s' % sorted(want), fi.node.lineno, clause='g')
